@@ -1,6 +1,9 @@
 """C11 - translation is a pure function of the input and the current table.
 History + fresh-interpreter comparison (forked from a zygote that has imported
 selfies and made no call), several hash seeds."""
+import re
+
+from vmon.aromgen import standard_system, benzenoid_system
 from vmon import env, tablegen
 from vmon.fresh import Zygote
 from vmon.histgen import ApiModel
@@ -120,6 +123,17 @@ def run(ctx):
                 sat.append(["d", "[C][%s]" % k + rng.choice(["[C]", "[=C]", "[Branch1][C][F]"]) * rng.choice([2, 4, 7]) + "[=O]", {}])
             probes = sat + [["d", rng.choice(pool_d), {"attribute": rng.random() < 0.2}] for _ in range(6)] + \
                      [["e", rng.choice(pool_e), {"strict": False, "attribute": rng.random() < 0.2}] for _ in range(5)]
+            # twin spellings: the same atoms in the same order, the same bonds, only the ring digits of some atoms written in
+            # the other order (the neighbour lists differ, nothing else).  What the first leaves behind must not steer the second
+            if rng.random() < 0.75:
+                pm, _, _ = benzenoid_system(rng, rng.choice([4, 5, 6, 8, 10, 14]))     # peri-condensed: the matching search has choices
+            else:
+                pm, _, _ = standard_system(rng, nrings=rng.choice([4, 5, 6, 8, 10]), sizes=rng.choice([(6,), (6,), (5, 6, 6, 7)]), chords=0)
+            s1 = spell(pm, rng, label_mode="smallest", variants=False)[0]
+            s2 = re.sub(r"(?<=[a-z\]])(\d)(\d)", lambda mm: mm.group(2) + mm.group(1) if rng.random() < 0.7 else mm.group(0), s1)
+            if s2 != s1:
+                probes += [["e", s1, {"strict": False}], ["e", s2, {"strict": False}]]
+                ctx.count("twin_spelling_probes")
             res = [call(sf, k, x, fl) for k, x, fl in probes]
             again = [call(sf, k, x, fl) for k, x, fl in probes]
             payload = {"history": list(M.log[-80:]), "table": table}
@@ -146,8 +160,8 @@ def run(ctx):
             # (b) fresh interpreter
             z = zyg[h % len(zyg)]
             ctx.see("hashseeds", z.hashseed)
-            fresh_d = z.run(table, [p for p in probes if p[0] == "d"])
-            fresh_e = z.run(None, [p for p in probes if p[0] == "e"])
+            fresh_d = z.run(table, [p for p in probes if p[0] == "d"], isolate=True)
+            fresh_e = z.run(None, [p for p in probes if p[0] == "e"], isolate=True)
             fresh = fresh_d + fresh_e
             for p, a, b in zip(probes, res, fresh):
                 ctx.count("probes_compared_fresh")
